@@ -15,6 +15,8 @@
 (*   inconclusive -> phase Unsolved   (NEVER skip to the next candidate)    *)
 (*                                                                          *)
 (* Getters deliver data only in phase Solved and raise otherwise.           *)
+(* solve() may be called again after the search gave up (Retry): it starts  *)
+(* over, so an inconclusive answer never counts as a refutation.            *)
 (* A nested helper search (min-generating-set lower bound, guessed          *)
 (* weights) may fail without harm: the outer search may give up or go on,   *)
 (* but what it returns must still be the truthful optimum.                  *)
@@ -48,10 +50,14 @@ SolveK(s) ==
        [] OTHER            -> phase' = "Unsolved" /\ n' = n
   /\ UNCHANGED <<kstar, nestedFault>>
 
+(* the caller calls solve() again on the same object after it gave up (the error message suggests as much): the
+   search starts over from its first candidate - the inconclusive answer refuted nothing *)
+Retry == /\ phase = "Unsolved" /\ phase' = "Searching" /\ n' = 1 /\ hist' = <<>> /\ UNCHANGED <<kstar, nestedFault>>
+
 GetData   == phase = "Solved" /\ UNCHANGED lvars       \* get_solution / get_objective_value return
 GetRaises == phase # "Solved" /\ UNCHANGED lvars       \* ... or raise
 
-LNext == Begin \/ (\E s \in Statuses : SolveK(s) \/ Nested(s)) \/ GetData \/ GetRaises
+LNext == Begin \/ Retry \/ (\E s \in Statuses : SolveK(s) \/ Nested(s)) \/ GetData \/ GetRaises
 LSpec == LInit /\ [][LNext]_lvars
 
 (***************************************************************************)
